@@ -131,7 +131,7 @@ CLAIMED["C06"] = (T_WP + " for the location / intersection primitives, the fast 
   "paths whose vertices all lie inside the rectangle are returned unchanged and paths entirely on one outer side vanish (RectClip64.Execute, using the exact getBounds contract after the F1 repair); an empty rectangle gives an empty result; "
   "NewRectClip64 wires rect and rectPath; every index expression of executeInternal, getNextLocation, getIntersection, addCorner, addCornerLocation is in range (under the listed assumption that corner locations are sides). "
   "Bounded (exhaustive, labelled, not counted as proved): every output vertex within 1 unit of the rectangle; fast paths; the winding clause for every 3-4 vertex (thorough: 3-5 vertex, 30.5 million cases) polygon of a 5x5 grid against three rectangles. "
-  "That stand-in found the port defects F30a-d (constant prevCrossLoc, stale edge-list copies, horizontal overlap test on vertical edges, wrong seed of checkEdges), which are repaired (fix: commits); it now passes with no failure.",
+  "That stand-in found the port defects F30a-b (constant prevCrossLoc, wrong seed of checkEdges), which are repaired (fix: commits); it now passes with no failure, as does a sampled family of 5-10 vertex polygons. Known finding F32 (paths winding >= 2 times around the rectangle without meeting it are treated by even-odd containment) is carried by the enclosing-winding sub-check.",
   "The winding clause itself is decided only up to the bound. checkEdges / tidyEdgePair (the edge post-pass) are not under contract. 'sideLoc' of corner locations is assumed (follows from a completeness argument about getIntersection that is not proved).",
   "DESIGN.md section 4, C06 and section 10.3")
 CLAIMED["C11"] = (T_WP + " for the shared primitives and the line walk's index safety; bounded exhaustive stand-in for the coverage clauses",
